@@ -262,7 +262,7 @@ def main(ck):
         json.dump(hist, open(tmp, "w"))
         rc, out = ck.run([binp, "0", tmp], timeout=600)
     else:
-        n = 260 if ck.tier == "quick" else 4000
+        n = 220 if ck.tier == "quick" else 4000
         rc, out = ck.run([binp, str(n)], timeout=3000, env={"VERIF_CORPUS": corpus})
     hs = [json.loads(l) for l in out.splitlines() if l.startswith('{"case"')]
     if getattr(ck, "replay", None):
